@@ -73,6 +73,7 @@ fn main() {
         "c03" => c02::run(&o, "C03"),
         "c20" => c20::run(&o),
         "c11" => c11::run(&o),
+        "c11-child" => c11::child(&args[2..]),
         _ => {
             eprintln!("unknown property {}", prop);
             std::process::exit(2);
